@@ -108,7 +108,7 @@ use core::slice;
 use std::io;
 
 unsafe fn arith_offset<T>(p: *const T, offset: isize) -> *const T {
-    p.offset(offset)
+    p.wrapping_offset(offset)
 }
 
 fn partition_dedup_by<T, F>(s: &mut [T], mut same_bucket: F) -> (&mut [T], &mut [T])
